@@ -12,7 +12,7 @@ import math
 import re
 
 from ..circles import Catalogue, gap_to_circle
-from ..common import short, where
+from ..common import module_region, short, where
 from ..exprs import is_const, mentions, strip
 from ..mirlib import Expr, Program, expr_str
 from ..tae import TableError
@@ -80,7 +80,7 @@ def run(run):
     if len(ecs) != 1:
         run.missing("C13.T2", "endorse_circle_span")
     else:
-        cls = prog.closures_of(ecs[0])
+        cls = [q for q in module_region(prog, ecs[0], stop=r"::(is_subset_of|endorse_\w+_span)$") if q != ecs[0]]
         loc = False
         for c in [ecs[0]] + cls:
             for bid, t in prog.calls(c):
@@ -94,7 +94,7 @@ def run(run):
     # the lookup must not depend on the absolute position (shared rule with C06.P1)
     if len(ecs) == 1:
         POSITIONAL = re.compile(r"span::Span::(bounds|cell_bounds|top_left|localize_point|is_bounded|hit_cell|extract)$")
-        for q in [ecs[0]] + prog.closures_of(ecs[0]):
+        for q in module_region(prog, ecs[0], stop=r"::(is_subset_of|endorse_\w+_span)$"):
             ex = Expr(prog, q)
             for bid, t in prog.calls(q):
                 n = Program.callee_name(t)
@@ -109,8 +109,8 @@ def run(run):
         # inside the per-entry closure nothing but the cell-by-cell comparison decides (a pre-filter on sizes has
         # to agree with the catalogue's own notion of width for all 22 drawings, flush-left ones included)
         for fn in sorted(q for q in prog.bodies if re.search(r"circle_map::endorse_\w+_span$", q)):
-            for q in prog.closures_of(fn):
-                if q.count("{closure") != 1:
+            for q in module_region(prog, fn, stop=r"::(is_subset_of|endorse_\w+_span)$"):
+                if q.count("{closure") > 1:
                     continue
                 qb = prog.bodies[q]
                 qex = Expr(prog, q)
